@@ -372,19 +372,24 @@ class Tensor:
         
         # Topological order all of the children in the graph 
         # (init gradients for those who are going to need it)
+        # (iterative depth-first post-order: the depth of the graph is not limited by the recursion limit)
         ordered_nodes = []
-        visited_nodes = set()
-        def visit_node(node):
-            if node not in visited_nodes:
-                visited_nodes.add(node)
-                for child in node._children:
-                    # leaves accumulate; a computed tensor starts every call from zero, so a gradient
-                    # left over from an earlier call (former root, retained tensor) never leaks into this one
-                    if child.requires_grad and (child._grad is None or not child.is_leaf):
-                        child.zero_()
-                    visit_node(child)
+        visited_nodes = {self}
+        stack = [(self, iter(self._children))]
+        while stack:
+            node, children = stack[-1]
+            for child in children:
+                # leaves accumulate; a computed tensor starts every call from zero, so a gradient
+                # left over from an earlier call (former root, retained tensor) never leaks into this one
+                if child.requires_grad and (child._grad is None or not child.is_leaf):
+                    child.zero_()
+                if child not in visited_nodes:
+                    visited_nodes.add(child)
+                    stack.append((child, iter(child._children)))
+                    break
+            else:
                 ordered_nodes.append(node)
-        visit_node(self)
+                stack.pop()
 
         # Go one tensor at a time and apply the chain rule to get its gradient
         if not self.matches_shape(grad):
